@@ -311,6 +311,7 @@ class DumpEngine:
 		import gc
 		import shutil
 		import tempfile
+		toolkit.reset()  # fresh module objects: nothing leaks from the previous run of this process
 		dd = toolkit.tk("data_dump")
 		cfg = plan["config"]
 		res = Result()
